@@ -19,6 +19,7 @@ import sys
 import concurrent.futures
 
 HOME = os.environ.get("VERIF_HOME", "/verif")
+MAXCHECKS = int(os.environ.get("MUT_MAXCHECKS", "9"))
 REPO = "/repo"
 MAP = {
     "kemeny_score_computation.py": ["C01", "C04", "C10"],
@@ -178,7 +179,7 @@ def work(job):
     rec["tests"] = "pass" if (" passed" in out and "failed" not in out and "error" not in out.lower().split("warnings")[0]) else "killed"
     if rec["tests"] == "pass":
         rec["checks"] = {}
-        for c in MAP.get(rel, []):
+        for c in MAP.get(rel, [])[:MAXCHECKS]:
             env2 = dict(os.environ, VERIF_REPO=W, VERIF_BUILD=f"/tmp/mut/build{wid}")
             rc, out = run(f"./check {c} --tier quick 2>&1 | grep -E 'VIOLATION|^\\[' | head -5", cwd=HOME, env=env2, timeout=1500)
             hard = sum(1 for l in out.splitlines() if "VIOLATION" in l and "no-failing-input-found" not in l)
